@@ -90,14 +90,14 @@ inline void register_file_entries() {
 static Reg r_geoidfile("c13_geoidfile", [](const Args& a) {
   std::string bytes = unhs(a[0]); bool cubic = a[1] == "1";
   std::string n = pname("fz"); put(tmpdir() + "/" + n + ".pgm", bytes);
-  alarm(60);
+  arm(60);
   std::string acc = "0", e2;
   std::string e = guarded([&] {
     Geoid g(n, tmpdir(), cubic, false); acc = "1";
     e2 = guarded([&] { double s = 0; for (double lat : {-90.0, -45.5, 0.0, 37.3, 90.0, std::nan("")}) for (double lon : {-180.0, -0.1, 0.0, 123.4, 359.9, 1e17}) s += g(lat, lon);
                        g.CacheArea(-10, -20, 30, 40); s += g(5, 5); g.CacheAll(); s += g(-80, 170); g.CacheClear(); (void)s; });
   });
-  alarm(0);
+  arm(0);
   emit((e.empty() ? "-" : e) + " " + acc);
   if (!e.empty() && e != "!E" && e != "!A") bad("foreign-exception", "Geoid constructor threw " + e);
   if (!e2.empty() && e2 != "!E" && e2 != "!A") bad("foreign-exception", "Geoid query on an accepted file threw " + e2);
@@ -105,13 +105,13 @@ static Reg r_geoidfile("c13_geoidfile", [](const Args& a) {
 static Reg r_magfile("c13_magfile", [](const Args& a) {
   std::string n = pname("fzm"); put(tmpdir() + "/" + n + ".wmm", unhs(a[0])); put(tmpdir() + "/" + n + ".wmm.cof", unhs(a[1]));
   int Nmax = a.size() > 2 ? std::atoi(a[2].c_str()) : -1, Mmax = a.size() > 3 ? std::atoi(a[3].c_str()) : -1;
-  alarm(60);
+  arm(60);
   std::string acc = "0", e2;
   std::string e = guarded([&] {
     MagneticModel m(n, tmpdir(), Geocentric::WGS84(), Nmax, Mmax); acc = "1";
     e2 = guarded([&] { double bx, by, bz, tx, ty, tz; m(2021, 10, 20, 1000, bx, by, bz); m(2021, std::nan(""), 20, 1000, bx, by, bz, tx, ty, tz); MagneticCircle c = m.Circle(2022, -30, 5000); c(77, bx, by, bz); });
   });
-  alarm(0);
+  arm(0);
   emit((e.empty() ? "-" : e) + " " + acc);
   if (!e.empty() && e != "!E" && e != "!A") bad("foreign-exception", "MagneticModel constructor threw " + e);
   if (!e2.empty()) bad(e2 == "!E" ? "field-evaluation-throws" : "foreign-exception", "MagneticModel evaluation on an accepted model threw " + e2);
@@ -119,13 +119,13 @@ static Reg r_magfile("c13_magfile", [](const Args& a) {
 static Reg r_gravfile("c13_gravfile", [](const Args& a) {
   std::string n = pname("fzg"); put(tmpdir() + "/" + n + ".egm", unhs(a[0])); put(tmpdir() + "/" + n + ".egm.cof", unhs(a[1]));
   int Nmax = a.size() > 2 ? std::atoi(a[2].c_str()) : -1, Mmax = a.size() > 3 ? std::atoi(a[3].c_str()) : -1;
-  alarm(60);
+  arm(60);
   std::string acc = "0", e2;
   std::string e = guarded([&] {
     GravityModel m(n, tmpdir(), Nmax, Mmax); acc = "1";
     e2 = guarded([&] { double gx, gy, gz; (void)m.Gravity(10, 20, 1000, gx, gy, gz); (void)m.GeoidHeight(10, 20); (void)m.Gravity(std::nan(""), 20, 1000, gx, gy, gz); GravityCircle c = m.Circle(-30, 5000); (void)c.Gravity(77, gx, gy, gz); });
   });
-  alarm(0);
+  arm(0);
   emit((e.empty() ? "-" : e) + " " + acc);
   if (!e.empty() && e != "!E" && e != "!A") bad("foreign-exception", "GravityModel constructor threw " + e);
   if (!e2.empty()) bad(e2 == "!E" ? "field-evaluation-throws" : "foreign-exception", "GravityModel evaluation on an accepted model threw " + e2);
